@@ -284,3 +284,9 @@ fn test_folded_polynomial_tree() {
     assert_eq!(fold_iter.next(), Some((1, two)));
     assert_eq!(fold_iter.last(), Some((4, coefficients.iter().sum())));
 }
+
+/// Verification hook: `init_stack` (only with `--cfg arkworks_rs_poly_commit_verif` or under Kani).
+#[cfg(any(kani, arkworks_rs_poly_commit_verif))]
+pub fn verif_init_stack<F: Field>(n: usize, challenges_len: usize) -> Vec<(usize, F)> {
+    init_stack(n, challenges_len)
+}
